@@ -17,9 +17,9 @@ pub struct Case {
     pub target: u8,
 }
 
-pub const TARGETS: [&str; 22] = [
+pub const TARGETS: [&str; 23] = [
     "i8", "i16", "i32", "i64", "i128", "u8", "u16", "u32", "u64", "u128", "f32", "f64", "bool", "char", "String", "Cow<str>", "Option<String>", "Option<i32>", "()", "Tree",
-    "serde_json::Value", "ByteBuf",
+    "serde_json::Value", "ByteBuf", "&str",
 ];
 pub const TAGS: [Option<&str>; 8] = [None, Some("!!str"), Some("!!int"), Some("!!float"), Some("!!bool"), Some("!!null"), Some("!"), Some("!local")];
 pub const STYLES: [Style; 5] = [Style::Plain, Style::Single, Style::Double, Style::Literal, Style::Folded];
@@ -487,6 +487,17 @@ pub fn expected(c: &Case, o: &Opts) -> Exp {
             }
             Exp::Unspec
         }
+        22 => {
+            // a borrowed string follows the rules of String; it may additionally fail when the text does not
+            // stand verbatim in the input, and it can only succeed with the text String gives
+            let as_string = expected(&Case { target: 14, ..c.clone() }, o);
+            match as_string {
+                Exp::Reject => Exp::Reject,
+                Exp::Accept(v) if plain && v == format!("{:?}", tok) => Exp::Accept(v),
+                Exp::Accept(v) | Exp::IfOk(v) => Exp::IfOk(v),
+                Exp::Unspec => Exp::Unspec,
+            }
+        }
         _ => Exp::Unspec,
     }
 }
@@ -537,6 +548,18 @@ fn observe(target: u8, emb: u8, text: &str, o: &Opts) -> Result<Result<String, S
         18 => go!((), |_v: ()| "()".to_string()),
         19 => go!(Tree, |v: Tree| format!("{:?}", v)),
         20 => go!(serde_json::Value, |v: serde_json::Value| v.to_string()),
+        22 => guarded(|| {
+            let lib = o.to_lib();
+            let r = match emb {
+                0 => serde_saphyr::from_str_with_options::<&str>(text, lib).map(|v| format!("{:?}", v)),
+                1 => serde_saphyr::from_str_with_options::<Vec<&str>>(text, lib).map(|v| if v.len() == 1 { format!("{:?}", v[0]) } else { format!("<{} items>", v.len()) }),
+                _ => serde_saphyr::from_str_with_options::<std::collections::BTreeMap<String, &str>>(text, lib).map(|m| match m.get("k") {
+                    Some(v) if m.len() == 1 => format!("{:?}", v),
+                    _ => "<not exactly key k>".to_string(),
+                }),
+            };
+            r.map_err(|e| e.to_string().lines().next().unwrap_or("").to_string())
+        }),
         _ => go!(serde_bytes::ByteBuf, |v: serde_bytes::ByteBuf| format!("{:?}", v.into_vec())),
     }
 }
@@ -546,7 +569,7 @@ fn outside_domain(c: &Case, f: u8) -> bool {
     let tok = c.token.as_str();
     match f {
         0 => !matches!(c.target, 12 | 19 | 20),
-        1 => !(matches!(c.target, 13..=16 | 19 | 20 | 21) && c.style == Style::Plain),
+        1 => !(matches!(c.target, 13..=16 | 19 | 20 | 21 | 22) && c.style == Style::Plain),
         2 => {
             let t = tok.trim().trim_start_matches(['+', '-']);
             !(t.len() > 1 && t.starts_with('0') && (t.as_bytes()[1].is_ascii_digit() || t.as_bytes()[1] == b'_'))
